@@ -278,7 +278,8 @@ func (p *broadcastProtocol) pubPeerMsg(peerID peer.ID, msgID int32, msg types.Me
 
 func (p *broadcastProtocol) postBlockChain(blockHash, receiveFrom string, block *types.Block, publisher peer.ID) error {
 	msg, err := p.P2PManager.PubBroadCast(blockHash, &types.BlockPid{Pid: publisher.Pretty(), Block: block}, types.EventBroadcastAddBlock)
-	if err == nil {
+	// PubBroadCast returns no message when another p2p type already forwarded this hash
+	if err == nil && msg != nil {
 		p.val.addBroadcastMsg(&broadcastMsg{msg: msg, publisher: publisher, hash: blockHash})
 	}
 	return err
@@ -286,7 +287,8 @@ func (p *broadcastProtocol) postBlockChain(blockHash, receiveFrom string, block 
 
 func (p *broadcastProtocol) postMempool(txHash string, tx *types.Transaction, publisher peer.ID) error {
 	msg, err := p.P2PManager.PubBroadCast(txHash, tx, types.EventTx)
-	if err == nil {
+	// PubBroadCast returns no message when another p2p type already forwarded this hash
+	if err == nil && msg != nil {
 		p.val.addBroadcastMsg(&broadcastMsg{msg: msg, publisher: publisher, hash: txHash})
 	}
 	return err
